@@ -1,2 +1,127 @@
-From BMC Require Import Base.
-Theorem C07_placeholder : True. Proof. exact I. Qed.
+(* C07 — Responses decode exactly as specified; malformed ones are rejected.
+   [decode_X old bs] = X.DecodeFromBytes into a layer that held [old] (models run against the Go decoders by
+   the C07 check: spec encodings, single-byte corruptions, truncations).  [SpecEnc.X v] (SpecLayers.v) is the
+   specification's encoding of the field values [v], written from the IPMI v2.0 / DCMI 1.0-1.5 tables with
+   arithmetic (+, *, powers of two), defined exactly when every field is in the range the specification gives
+   it; [shape] selects the optional / variable-length tail (with or without auxiliary revision, front-panel
+   byte, optional reading bytes, session-info tail, error vs success form).  Each theorem: for ALL field
+   values and ALL previous contents [old] of the layer, decoding the encoding yields exactly the values. *)
+From BMC Require Import Base Prim Layers Layers2 SpecLayers RoundTrip1 RoundTrip2 FsrProofs StringProofs.
+From BMCProps Require Import Tie.
+
+
+Theorem C07_rmcp :forall old v bs, SpecEnc.rmcp v = Some bs ->
+  decode_rmcp old bs = Ok v.
+Proof. exact rmcp_roundtrip. Qed.
+
+Theorem C07_setpriv :forall old v bs, SpecEnc.setpriv v = Some bs ->
+  decode_setpriv old bs = Ok v.
+Proof. exact setpriv_roundtrip. Qed.
+
+Theorem C07_guid :forall old v bs, SpecEnc.guid v = Some bs ->
+  decode_guid old bs = Ok v.
+Proof. exact guid_roundtrip. Qed.
+
+Theorem C07_reserve :forall old v bs, SpecEnc.reserve v = Some bs ->
+  decode_reserve old bs = Ok v.
+Proof. exact reserve_roundtrip. Qed.
+
+Theorem C07_getsdrrsp :forall old v bs, SpecEnc.getsdrrsp v = Some bs ->
+  decode_getsdrrsp old bs = Ok v.
+Proof. exact getsdrrsp_roundtrip. Qed.
+
+Theorem C07_sdrhdr :forall old v bs, SpecEnc.sdrhdr v = Some bs ->
+  decode_sdrhdr old bs = Ok v.
+Proof. exact sdrhdr_roundtrip. Qed.
+
+Theorem C07_sdrrepoinfo :forall old v bs, SpecEnc.sdrrepoinfo v = Some bs ->
+  decode_sdrrepoinfo old bs = Ok v.
+Proof. exact sdrrepoinfo_roundtrip. Qed.
+
+Theorem C07_authcaps :forall old v bs, SpecEnc.authcaps v = Some bs ->
+  decode_authcaps old bs = Ok v.
+Proof. exact authcaps_roundtrip. Qed.
+
+Theorem C07_deviceid :forall shape old v bs, SpecEnc.deviceid shape v = Some bs ->
+  decode_deviceid old bs = Ok v.
+Proof. exact deviceid_roundtrip. Qed.
+
+Theorem C07_chassis :forall shape old v bs, SpecEnc.chassis shape v = Some bs ->
+  decode_chassis old bs = Ok v.
+Proof. exact chassis_roundtrip. Qed.
+
+Theorem C07_sensorreading :forall shape old v bs, SpecEnc.sensorreading shape v = Some bs ->
+  decode_sensorreading old bs = Ok v.
+Proof. exact sensorreading_roundtrip. Qed.
+
+Theorem C07_sessioninfo :forall shape old v bs, SpecEnc.sessioninfo shape v = Some bs ->
+  decode_sessioninfo old bs = Ok v.
+Proof. exact sessioninfo_roundtrip. Qed.
+
+Theorem C07_ciphersuites :forall old v bs, SpecEnc.ciphersuites v = Some bs ->
+  decode_ciphersuites old bs = Ok v.
+Proof. exact ciphersuites_roundtrip. Qed.
+
+Theorem C07_dcmimgmt :forall old v bs, SpecEnc.dcmimgmt v = Some bs ->
+  decode_dcmimgmt old bs = Ok v.
+Proof. exact dcmimgmt_roundtrip. Qed.
+
+Theorem C07_dcmiopt :forall old v bs, SpecEnc.dcmiopt v = Some bs ->
+  decode_dcmiopt old bs = Ok v.
+Proof. exact dcmiopt_roundtrip. Qed.
+
+Theorem C07_powerreading :forall old v bs, SpecEnc.powerreading v = Some bs ->
+  decode_powerreading old bs = Ok v.
+Proof. exact powerreading_roundtrip. Qed.
+
+Theorem C07_dcmicaps :forall old v bs, SpecEnc.dcmicaps v = Some bs ->
+  decode_dcmicaps old bs = Ok v.
+Proof. exact dcmicaps_roundtrip. Qed.
+
+Theorem C07_dcmimand :forall old v bs, SpecEnc.dcmimand v = Some bs ->
+  decode_dcmimand old bs = Ok v.
+Proof. exact dcmimand_roundtrip. Qed.
+
+Theorem C07_rakp4 :forall shape old v bs, SpecEnc.rakp4 shape v = Some bs ->
+  decode_rakp4 old bs = Ok v.
+Proof. exact rakp4_roundtrip. Qed.
+
+Theorem C07_rakp2 :forall shape old v bs, SpecEnc.rakp2 shape v = Some bs ->
+  decode_rakp2 old bs = Ok v.
+Proof. exact rakp2_roundtrip. Qed.
+
+Theorem C07_opensessionrsp :forall shape old v bs, SpecEnc.opensessionrsp shape v = Some bs ->
+  decode_opensessionrsp old bs = Ok v.
+Proof. exact opensessionrsp_roundtrip. Qed.
+
+Theorem C07_dcmipower :forall old v bs, SpecEnc.dcmipower v = Some bs ->
+  decode_dcmipower old bs = Ok v.
+Proof. exact dcmipower_roundtrip. Qed.
+
+Theorem C07_dcmisensor :forall old v bs, SpecEnc.dcmisensor v = Some bs ->
+  decode_dcmisensor old bs = Ok v.
+Proof. exact dcmisensor_roundtrip. Qed.
+
+Theorem C07_fsr :forall enc old v bs, SpecEnc.fsr enc v = Some bs ->
+  decode_fsr old bs = Ok v.
+Proof. exact fsr_roundtrip. Qed.
+
+
+(* ID strings, every length from zero upward, with whatever follows them in the record *)
+Theorem C07_string_bcd_plus : forall ns tail, Forall (fun n => n < 16) ns ->
+  Impl.decode_bcd_plus (Spec.pack_nibbles ns ++ tail) (length ns) = Ok (map Spec.bcd_plus_rune ns, Nat.div (length ns + 1) 2).
+Proof. exact bcd_plus_roundtrip. Qed.
+Theorem C07_string_packed6 : forall cs tail, Forall (fun c => c < 64) cs ->
+  Impl.decode_packed6 (Spec.pack6 cs ++ tail) (length cs) = Ok (map (fun c => c + 0x20) cs, (length cs - Nat.div (length cs) 4)%nat).
+Proof. exact packed6_roundtrip. Qed.
+Theorem C07_string_latin1 : forall s tail, (length s <> 1)%nat -> Impl.decode_latin1 (s ++ tail) (length s) = Ok (s, length s).
+Proof. exact latin1_roundtrip. Qed.
+(* IPMI v2.0 43.15: a one-character 8-bit string is not legal; the code accepts it when a byte follows *)
+Theorem C07_string_latin1_one : forall c tail,
+  Impl.decode_latin1 ([c] ++ tail) 1 = match tail with [] => Err | _ => Ok ([c], 1%nat) end.
+Proof. exact latin1_roundtrip_1. Qed.
+Theorem C07_strings_too_short_rejected :
+  (forall b c, (length b < Nat.div (c + 1) 2)%nat -> Impl.decode_bcd_plus b c = Err) /\
+  (forall b c, (length b < c - Nat.div c 4)%nat -> Impl.decode_packed6 b c = Err) /\
+  (forall b c, (c <> 0)%nat -> (length b < c \/ length b < 2)%nat -> Impl.decode_latin1 b c = Err).
+Proof. exact (conj bcd_plus_short (conj packed6_short latin1_short)). Qed.
